@@ -691,20 +691,20 @@ Definition store_inv (keypair : nat -> N) (s : state) : Prop :=
   NoDup (map i_blob (s_store s)) /\
   forall n, (s_kdraws s <= n)%nat -> forall x, In x (s_store s) -> blob_key (i_blob x) <> keypair n.
 
-Theorem oracle_c03_session_model dir chal keypair : Injective keypair -> forall rs s,
+Theorem oracle_c03_session_model chal keypair : Injective keypair -> forall rs s,
   store_inv keypair s ->
-  oracle_c03_session (s_store s) rs (snd (session dir chal keypair rs s)) = true.
+  oracle_c03_session (s_store s) rs (snd (session chal keypair rs s)) = true.
 Proof.
   intro Hinj. induction rs as [|ri rest IH]; intros s [Hnd Hfresh]; simpl; [reflexivity|].
   unfold run_once.
-  pose proof (oracle_c03_run_model (run_env dir chal keypair ri) (ri_params ri) (ri_handlers ri) (start_run s)) as Ho.
+  pose proof (oracle_c03_run_model (run_env chal keypair ri) (ri_params ri) (ri_handlers ri) (start_run s)) as Ho.
   cbn [start_run s_store s_kdraws run_env e_keypair e_signer] in Ho.
   specialize (Ho Hnd (Hfresh _ (le_n _))).
-  destruct (run_body (run_env dir chal keypair ri) (ri_params ri) (ri_handlers ri) (start_run s))
+  destruct (run_body (run_env chal keypair ri) (ri_params ri) (ri_handlers ri) (start_run s))
     as [[s1 ev] r] eqn:Hr.
   apply run_body_gen_keys in Hr as [Hle _]. cbn [start_run s_kdraws] in Hle.
   destruct Ho as [Ho [Hnd1 Hinv1]].
-  specialize (IH s1). destruct (session dir chal keypair rest s1) as [s2 os2].
+  specialize (IH s1). destruct (session chal keypair rest s1) as [s2 os2].
   simpl in *. rewrite Ho. simpl. apply IH. split; [exact Hnd1|].
   intros n Hn x Hx. apply Hinv1 in Hx as [Hx|[Hx Hlt]].
   - apply Hfresh; [lia | exact Hx].
